@@ -20,6 +20,7 @@ type bMon struct {
 	failed    [bMax]bool
 	outTok    [bMax]any
 	errTok    [bMax]error
+	anyPrep   int  // 0: prep returns []Result; 1: []any; 2: a typed slice ([]int) - through the any-style prep option
 	nilOut    bool // successful items yield a nil value (a legal outcome)
 	errForm   int // 0 plain error values, 1/2 errors wrapping context.DeadlineExceeded / Canceled
 	order     [bMax * 4]int // start order (item index)
@@ -104,8 +105,27 @@ func bNode(m *bMon, exec func(ctx context.Context, item Result) (Result, error))
 	default:
 		b = NewBatchNode().WithBatchConcurrency(m.c).WithBatchErrorHandling(!m.stop)
 	}
+	if m.anyPrep > 0 {
+		// the items as plain payloads: the batch wraps them itself
+		vCover("prep-payload-is-not-a-result-slice")
+		WithPrepFuncAny(func(ctx context.Context, s *SharedStore) (any, error) {
+			if m.anyPrep == 1 {
+				vals := make([]any, m.n)
+				for i := range vals {
+					vals[i] = 100 + i
+				}
+				return vals, nil
+			}
+			vals := make([]int, m.n)
+			for i := range vals {
+				vals[i] = 100 + i
+			}
+			return vals, nil
+		}).apply(b.CustomNode)
+	} else {
+		b.WithPrepFunc(func(ctx context.Context, s *SharedStore) ([]Result, error) { return bItems(m.n), nil })
+	}
 	return b.
-		WithPrepFunc(func(ctx context.Context, s *SharedStore) ([]Result, error) { return bItems(m.n), nil }).
 		WithExecFunc(exec).
 		WithPostFunc(func(ctx context.Context, s *SharedStore, items, results []Result) (Action, error) {
 			vMon(func() {
